@@ -49,7 +49,10 @@ def run(ctx):
         seen = set()
         for b in blocks:
             lines = [l.strip() for l in b.splitlines() if l.strip().startswith("github.com/ozanh/ugo")]
-            site = lines[0] if lines else b.strip().splitlines()[0]
+            if not lines:
+                # a race between frames of the harness alone says nothing about the code under test
+                raise vlib.Inconclusive("the race detector reports a race inside the harness itself:\n" + "\n".join(b.strip().splitlines()[:12]))
+            site = lines[0]
             site = site.replace("()", "")
             if site in seen:
                 continue
